@@ -491,7 +491,7 @@ example : (checkBlockM (U := Unit)
     (fun x => x) 5000
     { nodes := #[({ height := 0, ts := 900, bits := 0x207fffff }, -1)], index := [(7, 0)], last := 0, unspent := () }
     { rawLen := 285, ver := 4, hash := 12345, hashKey := 9, parentKey := 8, bits := 0x207fffff, time := 1000, merkleRoot := [],
-      trusted := false, build := [], buildOk := true, height := 0, mtp := 0, txs := none, verifyFlags := 0 }).map (·.2.2)
+      trusted := false, build := some [], buildOk := true, height := 0, mtp := 0, txs := none, verifyFlags := 0 }).map (·.2.2)
       = some { dos := false, maybelater := true, code := "bad-prevblk" } := by
   decide +kernel
 
